@@ -200,6 +200,9 @@ def show(n, depth=0):
     return "<%s>" % n.get("cls", k)
 
 
+_ICU_RE = re.compile(r"^(u_|ucnv_|unorm|uloc_|ustr|utf8_|utf16_|u8_|ubrk_|ucol_|uset_|uchar_|ures_|udata_|utrace_)[A-Za-z0-9_]*_\d{2,3}$")
+
+
 class Block:
     __slots__ = ("id", "roots", "succs", "term", "label", "preds", "fn")
 
@@ -237,6 +240,17 @@ class Function:
                     self.blocks[s].preds.append(b.id)
         self._nodes = None
         self._calls = None
+        # ICU renames its entry points with a version suffix (u_fprintf -> u_fprintf_72): normalise
+        for b in self.blocks.values():
+            for r in b.roots:
+                for n in walk(r):
+                    if n.get("k") == "call":
+                        c = n.get("callee")
+                        if c and _ICU_RE.match(c):
+                            n["callee_raw"] = c
+                            n["callee"] = c[:c.rindex("_")]
+                    elif n.get("k") == "ref" and n.get("dk") == "func" and _ICU_RE.match(n.get("name", "")):
+                        n["name"] = n["name"][:n["name"].rindex("_")]
 
     @property
     def key(self):
